@@ -12,8 +12,10 @@ EXTENDS GridGeom, FiniteSets, TLC, TLCExt, Json
 CONSTANTS
     Kind,        \* "grid2d" | "block" | "octree" | "drape"
     Scope,       \* 1 = small domains (quick tier), 2 = larger domains (thorough tier)
-    Deviations   \* {} = ideal ; as built: "DefaultOriginRaises", "DrapeSettersKeepCache" ;
-                 \* negative controls: "RotationKeepsCache", "CountKeepsCache"
+    Mode,        \* "rw" : object in a writable workspace ; "r" : object re-read from a file opened read-only, where the
+                 \*        write-through of every setter is refused (Workspace._io_call raises)
+    Deviations   \* {} = ideal ; as built (before d160c9f / 353c42b): "DefaultOriginRaises", "DrapeSettersKeepCache" ;
+                 \* negative controls: "RotationKeepsCache", "CountKeepsCache", "RefusedWriteKeepsCache"
 
 VARIABLES p, cache, last
 vars == <<p, cache, last>>
@@ -72,7 +74,7 @@ NCells(q) ==
       [] Kind = "drape"  -> Len(LayerTab[q.layers])                                 \* drape_model.py:138-142
 
 NoCache == [valid |-> FALSE, val |-> <<>>]
-NoLast == [act |-> "Create", arg |-> 0, val |-> 0, err |-> "none", out |-> <<>>, ideal |-> <<>>]
+NoLast == [act |-> "Create", arg |-> 0, val |-> 0, stored |-> TRUE, err |-> "none", out |-> <<>>, ideal |-> <<>>]
 
 \* ---------------------------------------------------------------- initial states: created with or without an origin
 InitP ==
@@ -86,10 +88,19 @@ Init == p \in InitP /\ cache = NoCache /\ last = NoLast
 \* every geometry setter stores the value and drops the cached centres (self._centroids = None);
 \* `keeps` names the deviations under which this setter forgets to do so
 \* (arg = index into the domain table, val = the concrete value handed to the real setter)
+\* Mode "r": the setter stores, drops the cache and then fails in workspace.update_attribute - or fails before it
+\* stored anything (Octree.origin writes first, octree.py:220).  Either way the object must stay coherent: the
+\* property speaks of the parameters the object currently reports.  Both outcomes are successors; the harness
+\* follows the one whose parameters the real object reports after the call (`stored`).
+\* "RefusedWriteKeepsCache" (negative control): the cache is dropped only after the write-through, i.e. never.
 Setter(name, arg, val, newp, keeps) ==
-    /\ p' = newp
-    /\ cache' = IF \E d \in keeps : Dev(d) THEN cache ELSE NoCache
-    /\ last' = [act |-> name, arg |-> arg, val |-> val, err |-> "none", out |-> <<>>, ideal |-> <<>>]
+    \/ /\ p' = newp
+       /\ cache' = IF (\E d \in keeps : Dev(d)) \/ (Mode = "r" /\ Dev("RefusedWriteKeepsCache")) THEN cache ELSE NoCache
+       /\ last' = [act |-> name, arg |-> arg, val |-> val, stored |-> TRUE, err |-> "none", out |-> <<>>, ideal |-> <<>>]
+    \/ /\ Mode = "r"
+       /\ p' = p
+       /\ cache' = cache
+       /\ last' = [act |-> name, arg |-> arg, val |-> val, stored |-> FALSE, err |-> "none", out |-> <<>>, ideal |-> <<>>]
 
 HasOrigin == Kind \in {"grid2d", "block", "octree"}
 SetOrigin == HasOrigin /\ \E k \in Origins :        \* grid2d.py:276-290, block_model.py:134-151, octree.py:212-227
@@ -136,11 +147,11 @@ ReadCentroids ==
     /\ Consistent(p)            \* a drape model whose layers and prisms disagree has no defined centres: never read
     /\ UNCHANGED p
     /\ IF cache.valid
-       THEN cache' = cache /\ last' = [act |-> "Read", arg |-> 0, val |-> 0, err |-> "none", out |-> cache.val, ideal |-> Formula(p)]
+       THEN cache' = cache /\ last' = [act |-> "Read", arg |-> 0, val |-> 0, stored |-> TRUE, err |-> "none", out |-> cache.val, ideal |-> Formula(p)]
        ELSE IF ReadRaises
-            THEN cache' = cache /\ last' = [act |-> "Read", arg |-> 0, val |-> 0, err |-> "IndexError", out |-> <<>>, ideal |-> Formula(p)]
+            THEN cache' = cache /\ last' = [act |-> "Read", arg |-> 0, val |-> 0, stored |-> TRUE, err |-> "IndexError", out |-> <<>>, ideal |-> Formula(p)]
             ELSE cache' = [valid |-> TRUE, val |-> Formula(p)]
-                 /\ last' = [act |-> "Read", arg |-> 0, val |-> 0, err |-> "none", out |-> Formula(p), ideal |-> Formula(p)]
+                 /\ last' = [act |-> "Read", arg |-> 0, val |-> 0, stored |-> TRUE, err |-> "none", out |-> Formula(p), ideal |-> Formula(p)]
 
 Next == \/ SetOrigin \/ SetRotation \/ SetDip \/ SetVertical \/ SetUSize \/ SetVSize \/ SetWSize
         \/ SetUCount \/ SetVCount \/ SetWCount \/ SetOctreeCells \/ SetUDelims \/ SetVDelims \/ SetZDelims
